@@ -432,11 +432,12 @@ class C13(core.Check):
     ]
     partial_note = (
         "Theorems cover the control flow of optimize / optimize_iteration / optimize_clamp / _get_sensitivity / "
-        "GridBase.update / backport for every oracle. That a concrete clamp function maps into its manifold "
-        "(line, plane, circle, curve, surface) is a hypothesis of T_C13_on (C17 proves it for the library's clamps); "
-        "the harness checks manifold membership, bounds and link relations numerically on the implementation. "
-        "An exception escaping from a sensitivity probe is modelled (raised = probe) but excluded by hypothesis in "
-        "the whole-run theorems."
+        "GridBase.update / both backports for every oracle. That a concrete clamp function maps into its manifold "
+        "(line, plane, circle, curve, surface) and that scipy respects the bounds are hypotheses of T_C13_on_manifold "
+        "/ T_C13_bounds (C17 proves the manifold part for the library's clamps); the harness checks manifold "
+        "membership, bounds and link relations numerically on the implementation. Quality-not-worse on the "
+        "implementation is compared with a slack (see assumptions); the exact statement for a not yet consistent "
+        "initial state is T_C13_noworse_general."
     )
 
     # ------------------------------------------------------------------ generators
